@@ -63,8 +63,22 @@ const PIECES: &[&str] = &[
   "x_google_ignoreList", "null", "true", "false", "3", "{", "}", "[", "]", ":", ",", "\"sections\":", "\"version\":3",
 ];
 
+/// whole values in the shapes other tools write into these fields (a reader or writer that normalises "what this
+/// obviously is" meets them only here): identifiers, URLs, paths, numbers and dates as strings
+const SHAPED: &[&str] = &[
+  "85314830-023F-4CF1-A267-535F4E37BB17", "85314830-023f-4cf1-a267-535f4e37bb17", "85314830023F4CF1A267535F4E37BB17", "{85314830-023F-4CF1-A267-535F4E37BB17}",
+  "00000000-0000-0000-0000-000000000000", "FFFFFFFF-FFFF-FFFF-FFFF-FFFFFFFFFFFF", "urn:uuid:85314830-023F-4CF1-A267-535F4E37BB17",
+  "webpack:///./src/index.js", "webpack://app/./a.js?1234", "file:///C:/Users/x/a.js", "C:\\Users\\x\\a.js", "\\\\server\\share\\a.js", "http://a.b/c.js?x=1&y=2#frag",
+  "HTTP://A.B/C.JS", "data:application/json;base64,eyJ2ZXJzaW9uIjozfQ==", "/abs/path/a.js", "~/a.js", "a.js.map", "A.JS", "a%20b.js", "a+b.js",
+  "0", "-1", "3", "1e3", "0x10", "1.0", "NaN", "2026-09-29T00:00:00Z", "undefined", "[object Object]", "__proto__", "constructor",
+];
+
 fn wild_string() -> BoxedStrategy<String> {
-  vec(any::<u16>(), 0..=6).prop_map(|v| v.into_iter().map(|s| PIECES[crate::gen::idx(s, PIECES.len())]).collect::<String>()).boxed()
+  prop_oneof![
+    10 => vec(any::<u16>(), 0..=6).prop_map(|v| v.into_iter().map(|s| PIECES[crate::gen::idx(s, PIECES.len())]).collect::<String>()),
+    1 => (0..SHAPED.len()).prop_map(|i| SHAPED[i].to_string()),
+  ]
+  .boxed()
 }
 
 fn strings(max: usize) -> BoxedStrategy<Vec<String>> {
